@@ -107,3 +107,19 @@ pub fn vp_sort_by_key<T, K, F: FnMut(&T) -> K>(v: &mut Vec<T>, f: F)
     requires forall|x: &T| f.requires((x,)),
     ensures final(v)@.to_multiset() == old(v)@.to_multiset(), final(v)@.len() == old(v)@.len(),
 { unimplemented!() }
+// ---- rule R29: an untracked cell (std::cell::Cell semantics).  A `let mut` local that a closure captures mutably -- which Verus
+// rejects outright -- is rewritten into one of these.  The contracts say nothing about the content: every read yields an arbitrary
+// value, so everything proved about the surrounding code holds whatever the cell holds (over-approximation of the real state).
+#[verifier::external_body]
+#[verifier::reject_recursive_types(T)]
+pub struct VpCell<T> { _p: core::marker::PhantomData<T> }
+impl<T> VpCell<T> {
+    #[verifier::external_body]
+    pub fn vp_new(v: T) -> (r: Self) { unimplemented!() }
+    #[verifier::external_body]
+    pub fn vp_get(&self) -> (r: T) { unimplemented!() }
+    #[verifier::external_body]
+    pub fn vp_set(&self, v: T) { unimplemented!() }
+    #[verifier::external_body]
+    pub fn replace(&self, v: T) -> (r: T) { unimplemented!() }
+}
